@@ -949,3 +949,5 @@ TECHNIQUE = 'Lean 4 proof (induction over update/store) + model/code corresponde
 from harness import reuseupd as _ru                     # noqa: E402
 from harness.mixins import add_family as _add_family    # noqa: E402
 _add_family(globals(), _ru, 'reuseupd', _ru.oracle, share=0.02)
+from harness import onceset as _os                      # noqa: E402
+_add_family(globals(), _os, 'onceset', _os.oracle, share=0.02)
